@@ -254,7 +254,9 @@ impl FarmSim {
             }
             let m = self.l.farms.get_mut(&f.id).unwrap();
             m.funded += amount;
-            m.end += (amount / f.rate) as u64;
+            // (rate 0 in the ledger means the ledger says this expansion is impossible: if the
+            // contract accepted it anyway the monitors above have reported it when they are on)
+            m.end += amount.checked_div(f.rate).unwrap_or(0) as u64;
             if m.claimed > 0 && self.mon.c11 {
                 st.mark();
             }
